@@ -196,7 +196,7 @@ where
             let ghost before = *self;/*-*/
             if self.discovered.visit(node) {
                 /*+*/let ghost disc1 = self.discovered.vset();/*-*/
-                /*R:D11 for succ in graph.neighbors(node) */ let mut __it = graph.neighbors(node); let ghost all = __it.remaining(); let ghost mut done: int = 0; proof { graph.succ_law(node); } loop 
+                /*R:D11 for succ in */ let mut __it = /*-*/ graph.neighbors(node) /*R:D11 */; let ghost all = __it.remaining(); let ghost mut done: int = 0; proof { graph.succ_law(node); } loop 
                     invariant
                         __it.obeys_prophetic_iter_laws(), __it.decrease() is Some,
                         0 <= done <= all.len(), __it.remaining() == all.skip(done),
@@ -400,7 +400,7 @@ where
             let ghost disc0 = self.discovered.vset();
             proof { assert(old(self).stack@ =~= seq![node] + q0); assert(old(self).stack@[0] == node);
                 assert forall|i: int| 0 <= i < q0.len() implies q0[i] == old(self).stack@[i + 1] by { } }/*-*/
-            /*R:D11 for succ in graph.neighbors(node) */ let mut __it = graph.neighbors(node); let ghost all = __it.remaining(); let ghost mut done: int = 0; proof { graph.succ_law(node); } loop 
+            /*R:D11 for succ in */ let mut __it = /*-*/ graph.neighbors(node) /*R:D11 */; let ghost all = __it.remaining(); let ghost mut done: int = 0; proof { graph.succ_law(node); } loop 
                 invariant
                     __it.obeys_prophetic_iter_laws(), __it.decrease() is Some,
                     0 <= done <= all.len(), __it.remaining() == all.skip(done),
